@@ -171,9 +171,7 @@ func runCheck(eng *Engine, prop, tier string, verbose, noReplay bool) int {
 	}
 	genSecs := time.Since(tGen).Seconds()
 	tSolve := time.Now()
-	for _, r := range results {
-		r.discharge(timeout, workers())
-	}
+	dischargeAll(results, timeout, workers())
 	solveSecs := time.Since(tSolve).Seconds()
 	groups := groupObligations(results)
 
